@@ -594,7 +594,15 @@ macro_rules! new_curve_impl {
                 let x = $base::read_raw(reader)?;
                 let y = $base::read_raw(reader)?;
                 let z = $base::read_raw(reader)?;
-                Ok(Self { x, y, z })
+                let p = Self { x, y, z };
+                if bool::from(p.is_on_curve()) {
+                    Ok(p)
+                } else {
+                    Err(std::io::Error::new(
+                        std::io::ErrorKind::InvalidData,
+                        "point not on curve",
+                    ))
+                }
             }
             fn write_raw<W: std::io::Write>(&self, writer: &mut W) -> std::io::Result<()> {
                 self.x.write_raw(writer)?;
@@ -694,7 +702,15 @@ macro_rules! new_curve_impl {
             fn read_raw<R: std::io::Read>(reader: &mut R) -> std::io::Result<Self> {
                 let x = $base::read_raw(reader)?;
                 let y = $base::read_raw(reader)?;
-                Ok(Self { x, y })
+                let p = Self { x, y };
+                if bool::from(p.is_on_curve()) {
+                    Ok(p)
+                } else {
+                    Err(std::io::Error::new(
+                        std::io::ErrorKind::InvalidData,
+                        "point not on curve",
+                    ))
+                }
             }
             fn write_raw<W: std::io::Write>(&self, writer: &mut W) -> std::io::Result<()> {
                 self.x.write_raw(writer)?;
